@@ -67,6 +67,19 @@ let () =
           let st = Model.chunk_byte (bytekind kind) (list_of_tok (page bytes_of_tok) pages) in
           String.concat "|" [hex_of_z st.Model.cs_num_values; hex_of_z st.Model.cs_null_count; show_bounds tok_of_bytes st.Model.cs_bounds]
     | _ -> failwith "c05.chunk args");
+  (* the deprecated min / max of the chunk statistics: dep = 1 when the writer
+     has DeprecatedDataPageStatistics(true); answer min:max with N for an absent field *)
+  register "c05.chunkdep" (function
+    | [kind; dep; pages] ->
+        let dep = (dep = "1") in
+        let opt show = function None -> "N" | Some v -> show v in
+        if is_num kind then
+          let (mn, mx) = Model.chunk_dep_num (numkind kind) dep (list_of_tok (page n_of_hex) pages) in
+          opt hex_of_n mn ^ ":" ^ opt hex_of_n mx
+        else
+          let (mn, mx) = Model.chunk_dep_byte (bytekind kind) dep (list_of_tok (page bytes_of_tok) pages) in
+          opt tok_of_bytes mn ^ ":" ^ opt tok_of_bytes mx
+    | _ -> failwith "c05.chunkdep args");
   register "c05.trunc_max" (function
     | [limit; v] -> tok_of_bytes (Model.truncate_max (nat_of_int (int_of_string limit)) (bytes_of_tok v))
     | _ -> failwith "c05.trunc_max args");
